@@ -26,7 +26,7 @@ func TestDirectConsumerOnceInOrder(t *testing.T) {
 			}
 			Check(rt, o)
 		})
-		nt := !spun && o.TruthStable && (o.FaultWhileBuffered || o.PartialTake || o.SessionErr || o.Moves > 0)
+		nt := !spun && o.TruthStable && !o.ClosedEarly && (o.FaultWhileBuffered || o.PartialTake || o.SessionErr || o.Moves > 0)
 		ev.Case(o.Digest(), nt)
 		if o.FaultWhileBuffered {
 			ev.Class("fault-or-pause-while-buffered")
@@ -71,6 +71,9 @@ func Check(rt *rapid.T, o *wl.ConsObs) {
 	}
 	if o.OrderViolation != "" {
 		fail("offsets not strictly increasing: %s", o.OrderViolation)
+	}
+	if o.ClosedEarly {
+		return // closed without draining: only the per-poll order invariant applies
 	}
 	if !o.TruthStable {
 		return // the log kept growing while draining: no stable ground truth (inconclusive)
